@@ -1295,8 +1295,33 @@ func (m *Machine) selectSched(fr *frame, instr *ssa.Select) Value {
 		return r
 	}
 	site := fr.site()
-	m.yield(func() bool { return len(ready()) > 0 }, "select at "+site)
-	cand := ready()
+	// a select that can only be ended by the passing of time (nothing else is
+	// ready and no other thread can run) is ended by its timer
+	onlyTime := func() []int {
+		if len(ready()) > 0 {
+			return nil
+		}
+		s := m.sched()
+		for _, t := range s.threads {
+			if t != s.cur && s.runnable(t) {
+				return nil
+			}
+		}
+		var r []int
+		for i, st := range instr.States {
+			if ch, _ := fr.get(st.Chan).(*Chan); ch != nil && st.Dir == types.RecvOnly && ch.Timer {
+				r = append(r, i)
+			}
+		}
+		return r
+	}
+	var cand []int
+	if t := onlyTime(); len(t) > 0 {
+		cand = t
+	} else {
+		m.yield(func() bool { return len(ready()) > 0 }, "select at "+site)
+		cand = ready()
+	}
 	chosen := cand[m.Choose(len(cand))]
 	st := instr.States[chosen]
 	ch := fr.get(st.Chan).(*Chan)
